@@ -398,3 +398,28 @@ def single_requests(rng, n):
             words = words[: rng.below(len(words) + 1)]
         reqs.append("single hint=%s items=%s words=%s" % (hint, ",".join(map(str, its)), ",".join(map(str, words))))
     return reqs
+
+
+# ---------------------------------------------------------------------------------------------------------------------
+# structured internal states of the 64-bit Weyl generators (SplitMix64, Wyrand): the state after `draws` steps and `jumps` jumps is a
+# chosen word with zero / all-ones 32-bit halves, single bits, or one of the source's own constants xor such a word - the operand
+# classes of the multiplications and carry chains in the output functions.  The seed is obtained by running the Weyl sequence backwards.
+WEYL = {"splitmix": 0x9e3779b97f4a7c15, "wyrand": 0x2d358dccaa6c78a5}
+WY_P1 = 0x8bb84b93962eacc9
+
+
+def structured_word(rng, gen):
+    x = rng.bits(32)
+    k = rng.below(64)
+    base = rng.choice([0, 1, C.M64, x << 32, x, (x << 32) | 0xFFFFFFFF, 0xFFFFFFFF00000000 | x, 1 << k, C.M64 ^ (1 << k), 1 << 63, (1 << 63) - 1,
+                       0xFFFFFFFF, 0xFFFFFFFF00000000, 0x100000000, 0x80000000, rng.bits(16), rng.bits(16) << 48])
+    if gen == "wyrand" and rng.chance(1, 2):
+        base ^= WY_P1        # makes the first multiplication operand (state ^ P1) the structured word
+    return base & C.M64
+
+
+def weyl_seed_for(rng, gen, draws, jumps):
+    """(seed, target): after `draws` single steps and `jumps` jumps from `seed` the state is `target`"""
+    inc = WEYL[gen]
+    t = structured_word(rng, gen)
+    return (t - draws * inc - jumps * (inc << 40)) & C.M64, t
